@@ -16,7 +16,7 @@
    C06_set_fen_canonical: decoding the canonical FEN of any well-formed specification position gives that position. *)
 From Coq Require Import NArith List Bool.
 From LC Require Import Bits Types BitboardModel MoveModel ZobristModel PositionModel FenModel Spec.Rules Spec.Fen
-  Refine.Abs Refine.Board FenFacts FenCodecFacts FenRoundTrip.
+  Refine.Abs Refine.Board FenFacts FenCodecFacts FenRoundTrip Refine.MakeAbs ValidExact Capstone.
 Import ListNotations.
 Local Open Scope N_scope.
 
@@ -41,5 +41,19 @@ Theorem C06_set_fen_canonical : forall K dfrc s, fen_ok dfrc s ->
   abs (set_fen K (fen_of dfrc s) dfrc) = s /\ wf (set_fen K (fen_of dfrc s) dfrc) = true.
 Proof. exact set_fen_fen_of. Qed.
 
+(* ... and when that position is legal-consistent, the result of set_fen is in the domain of every other theorem
+   (representation invariant, rook squares, consistent hash, legal-consistent), with an empty history and valid() *)
+Theorem C06_set_fen_in_domain : forall K dfrc ranks T C E H F s,
+  length ranks = 8%nat -> Forall rank_ok ranks -> T <> [] -> vis T -> C <> [] -> vis C -> ep_word_ok E ->
+  digits H -> H <> [] -> digits F -> F <> [] ->
+  let fen := join 32 [join 47 ranks; T; C; E; H; F] in
+  of_fen dfrc fen = Some s -> legal_consistent dfrc s = true ->
+  let p := set_fen K fen dfrc in dom K dfrc p /\ history p = [] /\ abs p = s /\ valid K p = true.
+Proof. exact fen_start_in_domain. Qed.
+(* for EVERY string: the stored castling-rook squares are squares *)
+Theorem C06_set_fen_rook_squares : forall K fen dfrc, rooks_ok (set_fen K fen dfrc).
+Proof. exact set_fen_rooks_ok. Qed.
+
+Print Assumptions C06_set_fen_in_domain. Print Assumptions C06_set_fen_rook_squares.
 Print Assumptions C06_set_fen_decodes. Print Assumptions C06_set_fen_canonical.
 Print Assumptions C06_get_fen_encodes. Print Assumptions C06_printer_shows_placement. Print Assumptions C06_startpos.
